@@ -54,6 +54,8 @@ Definition entries : list (Z * (data -> data)) :=
                                              (dnat (dnth 5 d)) (d_rows den (dnth 6 d))));
     (512, fun d => let den := dZ (dnth 0 d) in enat (argmin_idx (d_qs den (dnth 1 d))));
     (513, fun d => let den := dZ (dnth 0 d) in e_qs (so_scale (d_sckind (dnth 1 d)) (d_qs den (dnth 2 d))));
+    (514, fun d => let den := dZ (dnth 0 d) in let ys := d_qs den (dnth 1 d) in
+                   elist (fun y => L [e_q (quantile_lo ys y); e_q (quantile_hi ys y)]) ys);
     (* ---- oracles ---- *)
     (520, fun d => let den := dZ (dnth 0 d) in ebool (ok_pick_max (d_qs den (dnth 1 d)) (dnat (dnth 2 d))));
     (521, fun d => let den := dZ (dnth 0 d) in ebool (ok_pick_weak (d_rows den (dnth 1 d)) (dnat (dnth 2 d))));
